@@ -94,8 +94,20 @@ def scn(sym, cov, kind, n, modes, cancel=None, native=False, fast=False, eager=F
                 return prim.value
             return prim.available_tokens
 
+        def already_owns(a):
+            """a task that is still inside acquire() but has the permit already (it took it without waiting and is in its
+            post-acquire yield, however many cycles that takes) is not "ahead in the queue" of anybody"""
+            if kind == "lock":
+                st_ = prim.statistics()
+                return st_.owner is not None and a in tasks and st_.owner.id == id(tasks[a])
+            if kind == "lim":
+                return any(b is borrower(a) for b in prim.statistics().borrowers)
+            # a semaphore does not say who holds its permits: if more permits are out than acquire() calls have returned,
+            # some task in `waiting` owns one already and the wait order of the others cannot be told from outside
+            return (state["total"] - prim.value) > len(holders) + 1
+
         def on_grant(i, r):
-            ahead = list(waiting[: waiting.index(i)]) if i in waiting else []
+            ahead = [a for a in waiting[: waiting.index(i)] if not already_owns(a)] if i in waiting else []
             if i in waiting:
                 waiting.remove(i)
             grants.append((i, r, ahead))
